@@ -31,7 +31,8 @@ import os
 BASELINE_PATH = os.path.join(os.path.dirname(os.path.abspath(__file__)), 'baseline.json')
 
 PURE_CALLS = {'math.sqrt', 'math.log', 'math.exp', 'math.pow', 'math.floor', 'math.ceil', 'float', 'int', 'abs', 'len', 'str', 'bool', 'min', 'max',
-              'isinstance', 'type', 'math.isnan', 'math.isinf', 'math.isfinite', 'repr', 'tuple', 'list', 'dict', 'set', 'sorted', 'hasattr'}
+              'isinstance', 'type', 'math.isnan', 'math.isinf', 'math.isfinite', 'repr', 'tuple', 'list', 'dict', 'set', 'sorted', 'hasattr',
+              'print', 'traceback.print_exc', 'logger.log', 'logger.debug', 'logger.info', 'logger.warning', 'logger.error', 'format'}
 
 
 def load_baseline():
